@@ -392,7 +392,11 @@ def build_lcase(case, out):
             break
     notes = []
     wave1 = [cp for cp in out.get("comps") or [] if cp["wave"] == 1]
-    timed = sorted(cp["id"] for cp in wave1 if cp["ptr"] in ("rwtimeout", "pingtimeout"))
+    # whose own timer fired: the call returned a timeout error after its own deadline (only read/write have
+    # a deadline this harness can reach; sync/unmap 30 s and ping 40 s are fixed)
+    rw_ms = STALL_MS if case.get("fault") == "stall" else FAULT_MS
+    timed = sorted(cp["id"] for cp in wave1 if cp["ptr"] in ("rwtimeout", "pingtimeout")
+                   and calls[cp["id"]]["kind"] in ("read", "write") and cp["ms"] >= rw_ms - 100)
     for i in timed:
         events.append(("timeout", i))
     if fault in ("close", "corrupt", "halfframe"):
